@@ -228,7 +228,7 @@ func (q *Seq) Step(from *net.UDPAddr, d []byte, what string, decaps func(ct []by
 			si.epub = eph.Public[:]
 			name := certs.Name{}
 			name.ReadFrom(bytes.NewBuffer(sni))
-			if c, cerr := srv.S.VerifHsConfig().GetCertificate(transport.ClientHandshakeInfo{ServerName: name}); cerr == nil {
+			if c, cerr := safeGetCert(srv, name); cerr == nil {
 				idx := q.identFor(c)
 				si.byname = append(si.byname, hv.Tuple(e.Hx(name.Label), certTriple(e, idx, c)))
 				sh.Absorb([]byte{4, 0, byte((4 + len(c.RawLeaf) + len(c.RawIntermediate)) >> 8), byte(4 + len(c.RawLeaf) + len(c.RawIntermediate))})
@@ -300,7 +300,7 @@ func (q *Seq) Step(from *net.UDPAddr, d []byte, what string, decaps func(ct []by
 				return
 			}
 			resp := outs[0].Data
-			c, cerr := srv.S.VerifHsConfig().GetCertificate(transport.ClientHandshakeInfo{ServerName: certs.RawStringName(q.hostName(matched))})
+			c, cerr := safeGetCert(srv, certs.RawStringName(q.hostName(matched)))
 			if cerr == nil {
 				si.byidx = append(si.byidx, hv.Tuple(hv.Ni(matched), certTriple(e, q.identFor(c), c)))
 			}
@@ -386,6 +386,18 @@ func (q *Seq) certList() string {
 		xs[i] = hv.App("HC", kem, hv.B(c.HasName), hv.Ni(i))
 	}
 	return hv.Some(hv.List(xs))
+}
+
+// safeGetCert asks the server's own GetCertificate which certificate it selects for a name; the
+// callback is code under test (hopserver's getCert): a panic in it counts as "no certificate" here —
+// the same call inside readPacket has been observed under recover() already.
+func safeGetCert(srv *Srv, name certs.Name) (c *transport.Certificate, err error) {
+	defer func() {
+		if r := recover(); r != nil {
+			c, err = nil, fmt.Errorf("GetCertificate panicked: %v", r)
+		}
+	}()
+	return srv.S.VerifHsConfig().GetCertificate(transport.ClientHandshakeInfo{ServerName: name})
 }
 
 func (q *Seq) hostName(i int) string {
